@@ -6,6 +6,7 @@ import Lean.Data.Json
 import Cnl2aspModel.Compiler.TemporalRange
 import Cnl2aspModel.Compiler.Cli
 import Cnl2aspModel.Asp.PrintAtom
+import Cnl2aspModel.Compiler.Route
 
 open Lean Cnl2aspModel
 
@@ -94,6 +95,20 @@ def c14print (j : Json) : Json :=
               ("flattened", Json.str (flattenFn nameEq a)),
               ("contiguous", Json.bool (contiguous nameEq (measure a.attrs) a.name a.attrs))]
 
+open Route in
+def c11route (j : Json) : Json :=
+  let evs : List Event := match j.getObjVal? "events" with
+    | .ok (Json.arr a) => a.toList.filterMap fun e => match e with
+        | Json.arr #[Json.str "h", Json.str p] => some (.header p)
+        | Json.arr #[Json.str "s", Json.arr rs] => some (.sent (rs.toList.filterMap fun r => r.getStr?.toOption))
+        | Json.arr #[Json.str "x"] => some .split
+        | _ => none
+    | _ => []
+  let ls := emit (run evs)
+  Json.mkObj [("lines", Json.arr (ls.map fun l => match l with
+    | .directive n => Json.arr #[Json.str "d", Json.str n]
+    | .rule r => Json.arr #[Json.str "r", Json.str r]).toArray)]
+
 open LineCol in
 def linecol (j : Json) : Json :=
   let s := (jstr j "s").toList
@@ -113,6 +128,7 @@ def dispatch (op : String) (j : Json) : Json :=
   | "c18.cli" => Ops.c18cli j
   | "linecol" => Ops.linecol j
   | "c14.print" => Ops.c14print j
+  | "c11.route" => Ops.c11route j
   | _ => Json.mkObj [("err", "bad-op")]
 
 partial def loop (h : IO.FS.Stream) (out : IO.FS.Stream) : IO Unit := do
